@@ -5,7 +5,7 @@
     data indices by (squared distance to the query, index); [dist2 pts q i] is the
     squared Euclidean distance from [q] to data point [i]. *)
 From Coq Require Import QArith Qabs ZArith List Bool Arith Lia Permutation Sorted.
-From Verde Require Import Lib.QExtra Lib.ISort Model.Neighbors Proofs.NeighborsProofs.
+From Verde Require Import Lib.QExtra Lib.ISort Model.Neighbors Proofs.NeighborsProofs Proofs.NeighborsInvariance.
 Import ListNotations.
 Open Scope Q_scope.
 
@@ -52,12 +52,17 @@ Theorem C15_knn_predict_values_unique : forall k pts vals q sel,
 Proof. exact knn_predict_values_unique. Qed.
 Print Assumptions C15_knn_predict_values_unique.
 
-(** mean / min / max: the prediction is the reduction over ANY set of k closest points *)
+(** the prediction (mean, median, min or max) is the reduction over ANY set of k closest points, in any order *)
 Theorem C15_knn_predict_unique : forall r k pts vals q sel,
-  r <> RMedian -> general_position pts q -> closest_set k pts q sel ->
+  general_position pts q -> closest_set k pts q sel ->
   knn_predict r k pts vals q == reduce r (map (fun i => nth i vals 0) sel).
-Proof. exact knn_predict_unique. Qed.
+Proof. exact knn_predict_unique_all. Qed.
 Print Assumptions C15_knn_predict_unique.
+
+(** none of the reductions depends on the order of the neighbour values *)
+Theorem C15_reduce_perm : forall r l l', Permutation l l' -> reduce r l == reduce r l'.
+Proof. exact reduce_perm. Qed.
+Print Assumptions C15_reduce_perm.
 
 Theorem C15_knn_shape : forall r k pts vals qs,
   length (knn_predict_all r k pts vals qs) = length qs /\
